@@ -861,10 +861,10 @@ func (w *World) rulesVocab(out *[]Obligation) {
 				}
 				add(km.DupOK, "R01.complete", "kvm.dup", km.Fn, km.DupWhy)
 				if km.Default == nil {
-					add(false, "R09.default", "kvm.default", km.Fn, "kvm.Set has no default arm")
+					add(false, "R01.complete", "kvm.default", km.Fn, "kvm.Set has no default arm: an unknown abbreviation reaches T.Set only")
 				} else {
 					refuses, typed, why := p.defaultArmError(km.Default.Body, paramObjs(p.Info, km.Fn)[0], nil)
-					add(refuses, "R09.default", "kvm.default", km.Default, map[bool]string{true: "an unknown abbreviation is refused with a non-nil error", false: "an unknown abbreviation is not refused: " + why}[refuses])
+					add(refuses, "R01.complete", "kvm.default", km.Default, map[bool]string{true: "an unknown abbreviation is refused with a non-nil error", false: "an unknown abbreviation is not refused: " + why}[refuses])
 					add(typed, "R18.default", "kvm.default", km.Default, why)
 				}
 			}
